@@ -32,7 +32,8 @@ CFG = {
             "<=3 env, <=3 ports, <=3(+1) mounts; <=3 of logs_now/logs_wait/address_for_port/shell_exec), run_shell_command, "
             "download_sbom_files, and as last act a rebuild with a second fresh config or with context.config.clone() + <=2 env pairs set after the clone "
             "(1/3 overriding an inherited key) + expected result, 1/4 of those followed by a third build again from the context's config; env lists "
-            "occasionally repeat a key (last value wins); absolute app dirs go through the app_dir setter, env lists of >=2 through envs(). Every 40th sample carries a CSV metacharacter in a mount path, every other 40th "
+            "occasionally repeat a key (last value wins); absolute app dirs go through the app_dir setter, env lists of >=2 through envs(). The texts the stand-in tools print (container id, `docker port` output, stdout) and the exit status of an expected-failure pack build "
+            "rotate through 3 sets. Every 40th sample carries a CSV metacharacter in a mount path, every other 40th "
             "in a buildpack reference (kind=d6-*; none during a violation search). quick: 1600 samples, thorough: 20000. "
             "non-trivial = at least one hostile string (empty, leading '-', contains '=' or space, non-ASCII) in a user-supplied position; "
             "distinct = distinct input line",
